@@ -201,9 +201,10 @@ PROPS['C01'] = {
     'oracle': 'C01',
     'decided': ['global / semiglobal / local: the temporary override of the four clip penalties is undone (the aligner scoring after the call equals the one before: part of "the result does not depend on earlier use"), and the result mode is set',
                 'TracebackCell: set_*_bits changes exactly the addressed 4-bit layer (value <= TB_MAX) and get_*_bits reads it back; set_all; new() is START in all layers',
-                'Traceback: init resets every cell of the (m+1)x(n+1) matrix to START (nothing of an earlier alignment survives), resize/set/get index arithmetic in bounds (row-major), no overflow'],
+                'Traceback: init resets every cell of the (m+1)x(n+1) matrix to START (nothing of an earlier alignment survives), resize/set/get index arithmetic in bounds (row-major), no overflow',
+                'constructors (MatchParams::new/score, Scoring::{from_scores, new, xclip, xclip_prefix, xclip_suffix, yclip, yclip_prefix, yclip_suffix}, Aligner::{new, with_capacity, with_scoring, with_capacity_and_scoring}): each builder changes exactly the named clip penalties and keeps every other field; a fresh scoring has all clips at MIN_SCORE; a fresh aligner carries exactly the given scoring and empty DP columns / traceback (no state from elsewhere); the documented panics (positive penalties) are preconditions; capacity arithmetic in range (rule R52 for `mut self` receivers)'],
     'undecided': ['optimality of the score, validity of the returned path, score recomputation: the 340-line three-layer DP `custom` is NOT under contract (its frame "leaves the scoring unchanged" is ASSUMED by the wrapper proofs)',
-                  'Scoring constructors, Aligner constructors'],
+                  ],
     'trusted': ['ASSUMED: custom() does not modify self.scoring (external_body stub)', 'bio_types Alignment stub', 'derived Default/Clone of TracebackCell'],
     'level_text': 'Verus proves the helper layer of the pairwise aligner (packed traceback cells, traceback matrix, clip-penalty restoration of the three mode wrappers); the dynamic program itself - and hence optimality and path validity - is not decided by this check.',
     'level_note': 'Level other (partial): helper layer only. Trusted/assumed: frame of custom(), bio_types stub, Verus/Z3.',
